@@ -51,6 +51,19 @@ def identity_violations(inputs, output):
     return bad
 
 
+def already_materialized(rel):
+    """A leaf or a materialization, possibly seen through markers that stay in the same engine (the SQL engine's SELECT
+    wrapper).  Decided here, independently of Materialization.simplify."""
+    r = rel
+    while True:
+        if isinstance(r, (dr.Materialization, dr.LeafRelation)):
+            return True
+        if isinstance(r, dr.MarkerRelation) and r.target.engine == r.engine:
+            r = r.target
+            continue
+        return False
+
+
 def steps(p):
     """Every factory call of the program with the programs of its inputs."""
     k = p[0]
@@ -110,7 +123,7 @@ def make_cases(rng, tier):
             # materializing a leaf / an already materialized relation adds no new materialization
             if out[0] == "mat":
                 src = rin[0]
-                if dr.Materialization.simplify(src) and sum(isinstance(x, dr.Materialization) for x in nodes(rout)) != \
+                if already_materialized(src) and sum(isinstance(x, dr.Materialization) for x in nodes(rout)) != \
                         sum(isinstance(x, dr.Materialization) for x in nodes(src)):
                     bad.append({"program": jsonable(out), "problem": ["materializing a locked relation added a materialization"]})
             if out[0] == "xfer" and rout.engine is not w.engine(out[1]):
